@@ -107,7 +107,7 @@ SUSP_ASSUMES = [
     "main.framer.active is not None",
 ]
 
-contract(FA, "Suspender.action", "C10,C05,C08",
+_C_ACTION = contract(FA, "Suspender.action", "C10,C05,C08",
          params=dict(self=Ref("Suspender"), needs=List(Ref("Act")), main=Ref("Frame"), aux=Ref("Framer"), human=STR),
          assumes=SUSP_ASSUMES,
          inline={(FA, "Suspender.deactivate")},
@@ -194,7 +194,7 @@ contract(FA, "Suspender.deactivate", "C10", params=dict(self=Ref("Suspender"), a
          local_ensures=["ct_len() == 1 and ct_is(0, 'Framer.exitAll', aux, 0)"],
          note="the framers below the auxiliary may change (callee contract of Framer.exitAll)")
 
-contract(FA, "Suspender.deactivize", "C10", params=dict(self=Ref("Suspender"), aux=Ref("Framer")),
+_C_DEACTIVIZE = contract(FA, "Suspender.deactivize", "C10", params=dict(self=Ref("Suspender"), aux=Ref("Framer")),
          inline={(FA, "Suspender.deactivate")},
          modifies=[AUX_OTHERS],
          ensures=[
@@ -208,7 +208,7 @@ contract(FA, "Suspender.deactivize", "C10", params=dict(self=Ref("Suspender"), a
 
 # ---------------------------------------------------------------- Frame.precur (body; call-site view in c11_clocks.py)
 NP = "len(self.preacts)"
-contract(FF, "Frame.precur", "C10", params=dict(self=Ref("Frame")), modifies=[c11_clocks.ANY_FRAMER], returns=BOOL,
+_C_PRECUR = contract(FF, "Frame.precur", "C10", params=dict(self=Ref("Frame")), modifies=[c11_clocks.ANY_FRAMER], returns=BOOL,
          loops={0: dict(inv=["ct_len() == _i",
                              "forall(lambda j: implies(0 <= j and j < _i, ct_is(j, 'act', self.preacts[j]) and "
                              "ct_res(j) == 0))"])},
@@ -239,7 +239,7 @@ c10_resume_transitions_same_tick.native = lambda cond: cond
 _seg0 = REG.contracts[(FF, "Framer.segue")][0]          # the C11/C09 contract: its loop invariants are reused
 NA = "len(old(self.actives))"
 PRE0 = "(2 + %s)" % NA
-contract(FF, "Framer.segue", "C10", params=dict(self=Ref("Framer")),
+_C_SEGUE = contract(FF, "Framer.segue", "C10", params=dict(self=Ref("Framer")),
          assumes=list(_seg0.assumes), modifies=list(_seg0.modifies),
          loops={0: dict(inv=list(_seg0.loops[0]["inv"])),
                 1: dict(inv=list(_seg0.loops[1]["inv"]) + [
@@ -272,3 +272,388 @@ contract(FF, "Framer.segue", "C10", params=dict(self=Ref("Framer")),
              "ct_is(%s + j, 'Frame.precur', self.actives[j])))))" % (PRE0, PRE0),
          ],
          returns=Opt(BOOL))
+
+
+# ================================================================= native harness (cross-check and replay)
+# Real Suspender.action / Frame.precur / Framer.segue (and the real Framer.change / reactivate / updateTimer / ...)
+# run under CPython on small object graphs: frames and framers are instances of the REAL classes (subclassed only to
+# record the calls the ghost trace records and to keep identity under the harness's deepcopy of old() values); the
+# conditional auxiliary is a scripted double (its own run is opaque in the contracts too); needs / transit acts /
+# other pre-acts are scripted callables.  `check` is an independent restatement of the property (expected call
+# sequence and end state computed from the script), the `ensures` clause texts are evaluated as they stand.
+class _L(list):
+    """list whose identity survives copy.deepcopy (old(x.actives) must stay the same object)"""
+    def __deepcopy__(self, memo):
+        return self
+
+
+class _D(object):
+    def __init__(self, **kw):
+        self.__dict__.update(kw)
+
+    def __deepcopy__(self, memo):
+        return self
+
+
+class _Script(object):
+    """scripted opaque act: records ('act', self, None, truth) and answers the scripted truth value"""
+    def __init__(self, trace, truth, tag=""):
+        self.trace, self.truth, self.tag = trace, truth, tag
+
+    def __call__(self):
+        self.trace.append(("act", self, None, 1 if self.truth else 0))
+        return self.truth
+
+    def __deepcopy__(self, memo):
+        return self
+
+
+class _Aux(_D):
+    """the conditional auxiliary framer as Suspender.action sees it: five operations, scripted completion"""
+    def _ev(self, name, arg=None, res=0):
+        self.trace.append((name, self, arg, res))
+
+    def checkStart(self):
+        self._ev("Framer.checkStart", None, 1 if self.start_ok else 0)
+        return self.start_ok
+
+    def enterAll(self):
+        self._ev("Framer.enterAll")
+        self.done = False
+        self.active = self.first
+        self.actives = self.first.outline
+
+    def segue(self):
+        self._ev("Framer.segue")
+
+    def recur(self):
+        self._ev("Framer.recur")
+        self.runs += 1
+        if self.runs >= self.completes_after:
+            self.done = True              # what a `done` act inside the auxiliary does
+
+    def exitAll(self, abort=False):
+        self._ev("Framer.exitAll", 1 if abort else 0)
+        self.actives = _L()
+        self.active = None
+        if not abort:
+            self.done = True
+
+
+def _real_classes():
+    """subclasses of the real Framer / Frame that record the traced calls (bodies are the real ones)"""
+    import collections.abc  # noqa
+    from ioflo.base import framing, acting
+
+    class FramerD(framing.Framer):
+        def __deepcopy__(self, memo):
+            return self
+
+        def change(self, actives, human=''):
+            self.trace.append(("Framer.change", self, actives, 0))
+            return framing.Framer.change(self, actives, human)
+
+        def reactivate(self):
+            self.trace.append(("Framer.reactivate", self, None, 0))
+            trace, self.trace = self.trace, []          # the nested change() is a callee's call, not a direct one
+            try:
+                return framing.Framer.reactivate(self)
+            finally:
+                self.trace = trace
+
+        def updateTimer(self):
+            self.trace.append(("Framer.updateTimer", self, None, 0))
+            return framing.Framer.updateTimer(self)
+
+        def updateCounter(self):
+            self.trace.append(("Framer.updateCounter", self, None, 0))
+            return framing.Framer.updateCounter(self)
+
+    class FrameD(framing.Frame):
+        def __deepcopy__(self, memo):
+            return self
+
+        def segueAuxes(self):
+            self.framer.segtrace.append(("Frame.segueAuxes", self, None, 0))
+            return framing.Frame.segueAuxes(self)
+
+        def precur(self):
+            slot = len(self.framer.segtrace)
+            self.framer.segtrace.append(None)
+            r = framing.Frame.precur(self)
+            self.framer.segtrace[slot] = ("Frame.precur", self, None, 1 if r else 0)
+            return r
+
+    return framing, acting, FramerD, FrameD
+
+
+def _share(name, value):
+    d = _D(name=name, value=value)
+    d.update = lambda value=None, d=d: setattr(d, "value", value)
+    return d
+
+
+def _set(obj, **kw):
+    for k, v in kw.items():
+        setattr(obj, k, v)                        # some attributes of the real classes are slots
+
+
+def _graph(rng, depth_below):
+    """top > main > low... : real frames of one real framer, full outline active, active = the bottom frame"""
+    framing, acting, FramerD, FrameD = _real_classes()
+    from ioflo.base.globaling import ACTIVE
+    fr = object.__new__(FramerD)
+    _set(fr, name="f", schedule=ACTIVE, store=_D(stamp=7.0), stamp=2.0, elapsed=5.0, recurred=3,
+                       elapsedShr=_share("elapsed", 5.0), recurredShr=_share("recurred", 3), humanShr=_share("human", ""),
+                       activeShr=_share("active", ""), done=False, status=2, desire=2, main=None, original=True,
+                       trace=[], segtrace=[])
+    names = ["top", "main"] + ["low%d" % i for i in range(depth_below)]
+    frames = []
+    for n in names:
+        f = object.__new__(FrameD)
+        _set(f, name=n, framer=fr, over=frames[-1] if frames else None, unders=[], auxes=[], preacts=[],
+                          beacts=[], enacts=[], renacts=[], reacts=[], exacts=[], rexacts=[])
+        if frames:
+            frames[-1].unders.append(f)
+        frames.append(f)
+    for i, f in enumerate(frames):
+        f.outline = _L(frames)
+        f.head = _L(frames[:i + 1])
+        f.human = "<" + "<".join(x.name for x in frames[:i + 1]) + ">" + ">".join(x.name for x in frames[i + 1:])
+        f.headHuman = "<" + "<".join(x.name for x in frames[:i + 1]) + ">"
+    fr.first = frames[0]
+    fr.active = frames[-1]
+    fr.actives = frames[-1].outline
+    fr.human = frames[-1].human
+    return framing, acting, fr, frames
+
+
+def _mk_suspender(acting, trace, main, ntracts):
+    s = object.__new__(acting.Suspender)
+    s.name = "suspender"
+    s._tracts = [_Script(trace, True, "tract%d" % i) for i in range(ntracts)]
+    s._act = _D(frame=main)
+    return s
+
+
+def _mk_aux(rng, trace, main, running, other):
+    auxframe = _D(name="a1", outline=None)
+    auxframe.outline = _L([auxframe])
+    aux = _Aux(name="helper", trace=trace, first=auxframe, original=rng.random() < 0.8, runs=0,
+               start_ok=rng.random() < 0.75, completes_after=rng.choice([1, 1, 2, 3]))
+    if running:
+        aux.done, aux.main, aux.active, aux.actives = False, main, auxframe, auxframe.outline
+        aux.completes_after = rng.choice([1, 1, 2])
+    else:
+        aux.done, aux.active, aux.actives = True, None, _L()
+        aux.main = rng.choice([None, None, None, main, other])
+    return aux
+
+
+def _make_action(rng, i, cex, nr):
+    framing, acting, fr, frames = _graph(rng, rng.choice([1, 1, 2]))
+    main = frames[1]
+    trace = fr.trace
+    running = rng.random() < 0.45
+    aux = _mk_aux(rng, trace, main, running, frames[0])
+    if running:
+        fr.actives = main.head
+        fr.human = main.headHuman
+    susp = _mk_suspender(acting, trace, main, rng.choice([0, 1, 2]))
+    if rng.random() < 0.1:
+        susp._act.frame = frames[0]               # the act sits in another frame than the owner of the auxiliary
+    needs = [_Script(trace, rng.random() < 0.8, "need%d" % k) for k in range(rng.choice([0, 1, 2, 3]))]
+    return {"self": susp, "needs": needs, "main": main, "aux": aux, "human": "aux helper if ...", "_trace": trace,
+            "_pre": dict(done=aux.done, main=aux.main, actives=fr.actives, own=susp._act.frame)}
+
+
+def _ct_view(env, nr):
+    tr = env["_trace"]
+    null = (None, None, None, 0)
+
+    def ev(k):
+        return tr[k] if 0 <= k < len(tr) and tr[k] is not None else null
+
+    def ct_is(k, name, recv=None, arg=None):
+        e = ev(k)
+        return e[0] == name and (recv is None or e[1] is recv) and (arg is None or e[2] is arg or e[2] == arg)
+    return {"ct_len": lambda: len(tr), "ct_is": ct_is, "ct_res": lambda k: ev(k)[3], "ct_code": lambda k: ev(k)[0],
+            "ct_recv": lambda k: ev(k)[1], "ct_arg": lambda k: ev(k)[2], "code": lambda n: n}
+
+
+def _check_action(env, nr, outcome, result, exc):
+    """the statement, restated over the script: expected direct-call sequence, result and end state"""
+    if outcome != "return":
+        return ["Suspender.action raised %r" % (exc,)]
+    s, needs, main, aux, pre, tr = env["self"], env["needs"], env["main"], env["aux"], env["_pre"], env["_trace"]
+    fr = main.framer
+    exp, res, actives = [], None, pre["actives"]
+    if pre["done"]:                                                # (A) not running
+        ok = True
+        for nd in needs:
+            exp.append(("act", nd))
+            if not nd.truth:
+                ok = False
+                break
+        if ok and pre["main"] is not None and pre["main"] is not pre["own"]:
+            ok = False
+        if ok:
+            exp.append(("Framer.checkStart", aux))
+            ok = aux.start_ok
+        if ok:
+            exp += [("act", t) for t in s._tracts] + [("Framer.enterAll", aux), ("Framer.recur", aux)]
+            if aux.completes_after <= 1:
+                exp.append(("Framer.exitAll", aux))
+            else:
+                exp.append(("Framer.change", fr))
+                res, actives = aux, main.head
+    else:                                                          # (B) running
+        exp += [("Framer.segue", aux), ("Framer.recur", aux)]
+        if aux.completes_after <= 1:
+            exp += [("Framer.exitAll", aux), ("Framer.reactivate", fr)]
+            actives = fr.active.outline
+        else:
+            res = aux
+    msgs = []
+    got = [(e[0], e[1]) for e in tr]
+    if len(got) != len(exp) or any(g[0] != x[0] or g[1] is not x[1] for g, x in zip(got, exp)):
+        msgs.append("call sequence %r differs from the statement's %r" % ([g[0] for g in got], [x[0] for x in exp]))
+    if result is not res:
+        msgs.append("result %r, the statement wants %r" % (result, res))
+    if fr.actives is not actives:
+        msgs.append("framer.actives is %r, the statement wants %r" % ([f.name for f in fr.actives], [f.name for f in actives]))
+    exited = ("Framer.exitAll", aux) in exp
+    if exited and not (aux.done and aux.active is None and len(aux.actives) == 0 and (aux.main is None or not aux.original)):
+        msgs.append("completed auxiliary is not fully exited / released")
+    if res is aux and aux.original and aux.main is not main:
+        msgs.append("running original auxiliary is not owned by the main frame")
+    return msgs
+
+
+_C_ACTION.replay = dict(make=_make_action, view=_ct_view, check=_check_action, count=400)
+
+
+def _make_deactivize(rng, i, cex, nr):
+    framing, acting, fr, frames = _graph(rng, 1)
+    main = frames[1]
+    aux = _mk_aux(rng, fr.trace, main, rng.random() < 0.6, frames[0])
+    susp = _mk_suspender(acting, fr.trace, main, 0)
+    return {"self": susp, "aux": aux, "_trace": fr.trace, "_pre": dict(done=aux.done, main=aux.main)}
+
+
+def _check_deactivize(env, nr, outcome, result, exc):
+    if outcome != "return":
+        return ["Suspender.deactivize raised %r" % (exc,)]
+    aux, pre, tr = env["aux"], env["_pre"], env["_trace"]
+    names = [e[0] for e in tr]
+    if pre["done"]:
+        return [] if not names and aux.main is pre["main"] else ["completed auxiliary touched by deactivize: %r" % names]
+    msgs = []
+    if names != ["Framer.exitAll"]:
+        msgs.append("running auxiliary: calls %r, the statement wants one exitAll" % names)
+    if not (aux.done and aux.active is None and len(aux.actives) == 0 and (aux.main is None or not aux.original)):
+        msgs.append("running auxiliary is not fully exited / released with its main frame")
+    return msgs
+
+
+# the quantified 'nothing at all changes' clause is not natively evaluable; _check_deactivize covers that case
+_C_DEACTIVIZE.replay = dict(make=_make_deactivize, view=_ct_view, check=_check_deactivize, count=100)
+
+
+def _make_precur(rng, i, cex, nr):
+    framing, acting, fr, frames = _graph(rng, 1)
+    f = frames[1]
+    f.preacts = [_Script(fr.trace, rng.random() < 0.3, "pre%d" % k) for k in range(rng.choice([0, 1, 2, 3, 4]))]
+    return {"self": f, "_trace": fr.trace, "_real": framing.Frame.precur}
+
+
+def _call_precur(env, nr):
+    return env["_real"](env["self"])             # the real body, not the recording wrapper of the harness class
+
+
+def _check_precur(env, nr, outcome, result, exc):
+    if outcome != "return":
+        return ["Frame.precur raised %r" % (exc,)]
+    f, tr = env["self"], env["_trace"]
+    exp = []
+    for a in f.preacts:
+        exp.append(a)
+        if a.truth:
+            break
+    want = bool(exp) and exp[-1].truth
+    msgs = []
+    if [e[1] for e in tr] != exp:
+        msgs.append("pre-acts evaluated %r, the statement wants %r" % ([e[1].tag for e in tr], [a.tag for a in exp]))
+    if result is not want:
+        msgs.append("result %r, the statement wants %r" % (result, want))
+    return msgs
+
+
+_C_PRECUR.replay = dict(make=_make_precur, call=_call_precur, view=_ct_view, check=_check_precur, count=200)
+
+
+def _make_segue(rng, i, cex, nr):
+    """real Framer.segue over real frames; main carries a REAL Suspender as pre-act (between two scripted ones), the
+    other frames carry scripted pre-acts (transition clauses that answer falsy, sometimes truthy)"""
+    framing, acting, fr, frames = _graph(rng, rng.choice([1, 2]))
+    main = frames[1]
+    sub = []                                                   # direct calls of Suspender.action (not segue's)
+    running = rng.random() < 0.6
+    aux = _mk_aux(rng, sub, main, running, frames[0])
+    susp = _mk_suspender(acting, sub, main, 0)
+    if running:
+        fr.actives = main.head
+        fr.human = main.headHuman
+    needs = [_Script(sub, rng.random() < 0.7, "need")]
+    ptr = []                                                   # evaluations of scripted pre-acts, in order
+    truthy = rng.random() < 0.2
+
+    def pre(tag, truth=False):
+        return _Script(ptr, truth, tag)
+
+    def suspender_act():
+        fr.trace, saved = sub, fr.trace                        # change()/reactivate() are Suspender.action's calls
+        try:
+            return susp.action(needs=needs, main=main, aux=aux, human="aux helper if need")
+        finally:
+            fr.trace = saved
+    for f in frames:
+        f.preacts = [pre(f.name + ".go", truthy and rng.random() < 0.3)]
+    main.preacts = [pre("main.before"), suspender_act, pre("main.later")]
+    fr.trace = fr.segtrace                                     # segue's own direct calls: updateTimer, updateCounter, ...
+    return {"self": fr, "_trace": fr.segtrace, "_ptr": ptr, "_frames": frames, "_aux": aux,
+            "_pre": dict(actives=fr.actives, active=fr.active, running=running, stamp=fr.stamp, recurred=fr.recurred)}
+
+
+def _check_segue(env, nr, outcome, result, exc):
+    if outcome != "return":
+        return ["Framer.segue raised %r" % (exc,)]
+    fr, tr, pre = env["self"], env["_trace"], env["_pre"]
+    old = list(pre["actives"])
+    n = len(old)
+    msgs = []
+    names = [e[0] for e in tr]
+    if names[:2] != ["Framer.updateTimer", "Framer.updateCounter"] or \
+            [(e[0], e[1]) for e in tr[2:2 + n]] != [("Frame.segueAuxes", f) for f in old]:
+        msgs.append("prefix of the call sequence is not updateTimer, updateCounter, segueAuxes per active frame")
+    pc = tr[2 + n:]
+    if any(e[0] != "Frame.precur" for e in pc) or [e[1] for e in pc] != old[:len(pc)]:
+        msgs.append("precur calls %r are not a top-down prefix of the list active at entry %r"
+                    % ([e[1].name for e in pc], [f.name for f in old]))
+    if any(e[3] for e in pc[:-1]):
+        msgs.append("segue continued after a truthy precur")
+    if (result is True) != bool(pc and pc[-1][3]) or result not in (True, None):
+        msgs.append("result %r does not say whether the last precur was truthy" % (result,))
+    if result is None and len(pc) != n:
+        msgs.append("falsy segue did not visit every frame of the list active at entry")
+    # the statement's reading of 'resume in the same tick' for transitions (c10_resume_transitions_same_tick)
+    if result is None and fr.active is pre["active"] and fr.actives is fr.active.outline:
+        if [e[1] for e in pc] != list(fr.actives):
+            msgs.append("c10_resume_transitions_same_tick: the full outline %r is active after the segue but only %r had "
+                        "their transition clauses evaluated in it (entry list %r; the auxiliary completed: %s)"
+                        % ([f.name for f in fr.actives], [e[1].name for e in pc], [f.name for f in old],
+                           env["_aux"].done and pre["running"]))
+    return msgs
+
+
+_C_SEGUE.replay = dict(make=_make_segue, view=_ct_view, check=_check_segue, count=300)
